@@ -210,6 +210,23 @@ def wide_cases(rng, n, kind):
     ops1 = [g for g in path_formulas_ops(1) if g[0] in ('X', 'F', 'G', 'U', 'R')]
     ops2 = [g for g in path_formulas_ops(2) if g[0] in ('X', 'F', 'G', 'U', 'R') and g[1][0] != 'true']
     out = []
+    leaves = [('ap', 'p'), ('ap', 'q'), ('true',), ('not', ('ap', 'p')), ('not', ('ap', 'q'))]
+    while len(out) < n // 4:
+        # a wide connective TOGETHER WITH ITS PREFIX (a or b or c next to a or b), both under temporal operators: the two are
+        # different formulas (a printer / comparison that looks at the first two operands only would conflate them)
+        k = rng.choice([3, 3, 4])
+        gs = rng.sample(leaves + ([g for g in ops1 if g[0] == 'X'] if kind != 'CTL' else []), k)
+        op = rng.choice(['or', 'and'])
+        w3, w2 = (op,) + tuple(gs), (op,) + tuple(gs[:rng.choice([2, k - 1])])
+        if kind == 'CTL':
+            qa, qb = rng.choice('AE'), rng.choice('AE')
+            f = rng.choice([('imp', (qa, ('X', w3)), (qb, ('X', w2))), (qa, ('U', w3, w2)), ('and', (qa, ('F', w3)), ('not', (qb, ('F', w2)))),
+                            (qa, ('G', ('or', w2, (qb, ('X', w3)))))])
+        else:
+            body = rng.choice([('imp', ('X', w3), ('X', w2)), ('U', w3, w2), ('and', ('F', w3), ('G', ('not', w2))), ('or', ('X', w2), ('not', ('X', w3))),
+                               ('U', ('X', w2), ('X', w3))])
+            f = ((rng.choice('AE') if kind == 'CTLS' else 'A'), body)
+        out.append((rand_kripke(rng, rng.randint(1, 3), aps=('p', 'q')), f))
     while len(out) < n:
         # (the tableau is exponential in the number of temporal operands: keep LTL/CTL* bodies small)
         k = rng.choice([3, 3, 3, 4, 4, 5, 1]) if kind == 'CTL' else rng.choice([3, 3, 3, 3, 4, 1])
